@@ -107,7 +107,7 @@ fn resend_family(g: &mut G, ctx: &RunCtx) -> RunReport {
     );
     let url = plan.url(&format!("http://{}", bodyx::HOST_IP));
     let out = sim.run(|| {
-        let rb = attohttpc::RequestBuilder::new(attohttpc::Method::from_bytes(plan.method.as_bytes()).unwrap(), &url).read_timeout(std::time::Duration::from_secs(5));
+        let rb = plan.new_builder(&url).read_timeout(std::time::Duration::from_secs(5));
         plan.send_prepared(rb, 2)
     });
     let mut stats = Stats::default();
@@ -159,7 +159,7 @@ pub fn scenario(g: &mut G, ctx: &RunCtx) -> RunReport {
     script.acts.push(Act::Fin);
     let url = plan.url(&format!("http://{}", bodyx::HOST_IP));
     let ran = bodyx::run_origin(&script, &faults, ctx, || {
-        let rb = attohttpc::RequestBuilder::new(attohttpc::Method::from_bytes(plan.method.as_bytes()).unwrap(), &url);
+        let rb = plan.new_builder(&url);
         match plan.send(rb) {
             Ok(resp) => resp.bytes().map(|_| ()).map_err(|e| format!("body:{}", err_kind(&e))),
             Err(e) => Err(err_kind(&e)),
